@@ -95,7 +95,7 @@ def lenOf : Val → Option Nat
   | _ => none
 
 /-- the constraints of the correspondence run: id = kind * 1000 + bound,
-kinds 0 le, 1 ge, 2 gt, 3 lt (on ints), 4 max_length, 5 min_length (on containers) -/
+kinds 0 le, 1 ge, 2 gt, 3 lt, 6 multiple_of (on ints), 4 max_length, 5 min_length (on containers) -/
 def chkCon (c : Nat) (v : Val) : Bool :=
   let b := c % 1000
   match c / 1000, v with
@@ -105,6 +105,7 @@ def chkCon (c : Nat) (v : Val) : Bool :=
   | 3, .int i => i < b
   | 4, v => (match lenOf v with | some n => n ≤ b | none => false)
   | 5, v => (match lenOf v with | some n => n ≥ b | none => false)
+  | 6, .int i => b != 0 && i % b == 0
   | _, _ => false
 
 def handle (j : Json) : Json :=
